@@ -1809,7 +1809,7 @@ class NavModelTiny(NavModelBase):
 
     def generate(self, rng, tier):
         scopes = [(2, 2), (3, 2), (3, 3)] if tier == "quick" else [(2, 3), (3, 3), (4, 2), (4, 3)]
-        budget = 200 if tier == "quick" else 3000
+        budget = 200 if tier == "quick" else 1500
         allc = [(n, L, tv, edges) for n, L in scopes for tv, edges in tiny_descs(n, L)]
         keep = allc if len(allc) <= budget else rng.sample(allc, budget)
         conts = [["next"], ["prev"], ["first"], ["last"], ["clear"]]
@@ -1842,7 +1842,7 @@ class NavModelRand(NavModelBase):
     name = "nav_model_rand"
 
     def generate(self, rng, tier):
-        n = 300 if tier == "quick" else 4000
+        n = 300 if tier == "quick" else 2500
         for i in range(n):
             desc, a, b = gap_desc(rng, max_nodes=rng.choice([4, 6, 8]))
             desc = dict(desc, scale=rng.choice([1, 0.5, 0.25, 2]))
